@@ -320,6 +320,21 @@ func ruleC11Wake(c *Ctx) {
 				}
 			}
 		}
+		// (1b) the wake is unconditional: its block dominates every return of the wrapper — also on the path on which
+		// the caller owns the exclusive lock (a push queued in MULTI/EXEC wakes waiters like any other)
+		always := wakeCall != nil
+		if wakeCall != nil {
+			for _, b := range fn.Blocks {
+				if _, isRet := b.Instrs[len(b.Instrs)-1].(*ssa.Return); isRet && !(wakeCall.Block() == b || wakeCall.Block().Dominates(b)) {
+					always = false
+				}
+			}
+		}
+		if always {
+			c.S.OK("R-C11-wake", fnName(fn)+":wake-unconditional", c.Pos(c.InstrPos(wakeCall)), "the wake lies on every path through the wrapper")
+		} else {
+			c.S.Bad("R-C11-wake", fnName(fn)+":wake-unconditional", c.Pos(fn.Pos()), "the wrapper can return without waking the waiters (the wake is conditional, e.g. skipped when the caller owns the exclusive lock): a push inside MULTI/EXEC leaves blocked clients asleep next to a non-empty list")
+		}
 		key := fnName(fn) + ":wake-before-unlock"
 		if okOrder {
 			c.S.OK("R-C11-wake", key, c.Pos(c.InstrPos(wakeCall)), "waiters are woken while the database mutex is still held")
